@@ -294,6 +294,12 @@ Section JointDistribution.
       cov sym None r' x y = Some (sym_mk_cov (nth (Nat.min i j) pn 1%positive) (nth (Nat.max i j) pn 1%positive)).
   Proof. exact (cjd_default_new_cov_lemma F f0 fmul fsqrt fround7 ftenth ie_init). Qed.
 
+  (* fewer than two etas — in particular the empty default selection when every IIV eta has a fixed parameter —
+     is refused with the documented ValueError (full strength since fix 73b8b8c; it used to be an IndexError) *)
+  Theorem cjd_too_few_is_valueerror : forall inds pn p (r : scoll),
+    length inds < 2 -> cjd inds pn p r = Err ValueError.
+  Proof. exact (cjd_too_few_lemma F f0 fmul fsqrt fround7 ftenth ie_init). Qed.
+
   Theorem split_names : forall inds (p : params F) (r : scoll),
     Permutation (names (fst (split_joint_distribution F inds p r))) (names r).
   Proof. exact (split_names_lemma F). Qed.
